@@ -38,6 +38,13 @@ def documents():
             sites['actions-list'] = '  QToolBar { id: bar; actions: [t.menuAction()] }\n'
         if kind == 'widget':
             sites['object-valued-property'] = '  QLabel { id: lab; buddy: t }\n'
+            # references to an object of an incompatible class: must be rejected
+            sites['actions-list-of-widgets'] = '  QToolBar { id: bar; actions: [t] }\n'
+            sites['actions-list-of-widgets-2'] = '  QLineEdit { id: t2 }\n  QToolBar { id: bar; actions: [t, t2] }\n'
+        if kind == 'action':
+            sites['buddy-is-an-action'] = '  QLabel { id: lab; buddy: t }\n'
+        if kind == 'layout':
+            sites['buddy-is-a-layout'] = '  QLabel { id: lab; buddy: t }\n'
         for site, text in sites.items():
             docs.append((f'{kind}/{site}', head + holder + text + tail))
     # objects nested in objects that cannot carry children in a .ui
@@ -61,7 +68,17 @@ def check_doc(qmluic, work, name, text):
             return 'panic', ['the translator panics: ' + r.stderr.strip().split('\n')[-1][:200]]
         return 'rejected', []
     declared = re.findall(r'<(?:widget|layout|spacer|action)\b[^>]*\bname="([^"]*)"', r.ui)
+    kind_of = {n: (k, c) for k, c, n in re.findall(r'<(widget|layout|spacer|action)\b(?:[^>]*\bclass="([^"]*)")?[^>]*\bname="([^"]*)"', r.ui)}
     probs = []
+    # compatible class: <addaction> names an action or a menu; a buddy (<cstring>) names a widget
+    for n in re.findall(r'<addaction name="([^"]*)"', r.ui):
+        k = kind_of.get(n)
+        if n != 'separator' and k and not (k[0] == 'action' or (k[0] == 'widget' and 'Menu' in (k[1] or ''))):
+            probs.append(f'<addaction> {n}: refers to a {k[0]} of class {k[1] or "?"}, not to an action or menu')
+    for n in re.findall(r'<cstring>([^<]*)</cstring>', r.ui):
+        k = kind_of.get(n)
+        if k and k[0] != 'widget':
+            probs.append(f'<cstring> {n}: a buddy must be a widget, this is a {k[0]}')
     for n in sorted(set(declared)):
         if declared.count(n) > 1:
             probs.append(f'name {n} is declared {declared.count(n)} times')
